@@ -20,6 +20,15 @@ CLAIMED = {
  "C04": dict(engine="davtree", design="5 C04",
    technique="CondOK truth table in the TLA+ DavTree spec judged by TLC on every (tree, conditional request) pair; TLC-simulated histories with announced entity tags threaded through the trace spec; helper/hand-over table judged by CondJudge",
    text="Exhaustive 6x6 If-Match x If-None-Match classes x {PUT, DELETE} x every path on every tree of the bounded instance (tags are real server announcements: current = announced since last write, stale = announced before a rewrite); histories validate that PUT/GET/HEAD/PROPFIND announce one and the same string for an unmodified resource; ConditionalMatch helpers and byte-for-byte hand-over to WebDAV/CalDAV/CardDAV backends over adversarial tag strings."),
+ "C06": dict(engine="filters", design="5 C06",
+   technique="RFC 4791 9.7-9.9 transcribed as TLA+ operators (CalFilter); TLC checks their laws and enumerates the bounded universes; every case executed on the real caldav.Match/Filter; verdicts judged by TLC",
+   text="Exhaustive over the bounded instance: every filter tree (depth <= 3; is-not-defined, text-match x negate, param-filters) x every calendar (quick 404 x 1057, thorough 12 692 x 1057 pairs); every relative placement incl. all equalities of range start/end vs DTSTART/DTEND on a six-point line for each of the five ways an event states its end, closed/open-ended/open-start ranges, three zones; recurring DAILY/WEEKLY x COUNT 1-4 x three durations x 104 ranges; property time ranges. Filter judged as the order-preserving matching subsequence; arguments compared before/after."),
+ "C07": dict(engine="filters", design="5 C07",
+   technique="RFC 6352 10.5 transcribed as set-valued TLA+ operators (CardFilter: invalid enumeration values must error unless they cannot matter); TLC-enumerated universes executed on the real carddav.Match/Filter and judged by TLC",
+   text="Exhaustive over: outer test x inner test x match type (each incl. unset and invalid) x negate x is-not-defined x presence x texts/values over a two-letter alphabet with up to two text-matches (21k-38k queries x 6 cards), 0-2 prop-filters over two properties (3 252 queries x 9 cards), card lists of length 0-4 x Limit -1..6 x 10 projections x 3 queries (29 040 cases); repeated under several alphabets (XML metacharacters, non-ASCII, case variants, long strings)."),
+ "C19": dict(engine="filters", design="5 C19",
+   technique="RFC 4791 4.1 rules as TLA+ operators (CalFilter.Valid/TheType/TheUid); all 108 482 calendars enumerated by TLC, executed on the real ValidateCalendarObject, judged by TLC (incl. count and order of the executed universe)",
+   text="Exhaustive in both tiers: every sequence of <= 4 components over five types x UID {absent, u1, u2}, with and without METHOD; accept/reject, returned type and UID, empty results on rejection, argument unchanged; UID tokens concretised several ways (escaped characters, prefix-related UIDs)."),
  "C17": dict(engine="davtree", design="5 C17",
    technique="leak bit recorded on every event of the DavTree universes, required FALSE by the TLC judge",
    text="Every response (headers and body) of every (tree, request) pair, body fault and conditional request is scanned for the absolute path of the sandbox (and its symlink-resolved form); the specification's responses carry no such datum, so any occurrence is a reject."),
@@ -54,6 +63,9 @@ m = {
            "baseline_off_cmd": "cd /repo && GOFLAGS=-mod=mod GOPROXY=off GOSUMDB=off go test -vet=off -count=1 ./...",
            "source_commits": hooks_commits, "add_only": True},
  "engines": [
+  {"name": "filters", "path": "spec/CalFilter.tla spec/CalGen.tla spec/CalJudge.tla spec/CardFilter.tla spec/CardGen.tla spec/CardJudge.tla spec/ValJudge.tla harness/cmd/calrec harness/cmd/cardrec lib/checks_filter.py",
+   "serves_properties": ["C06", "C07", "C19"],
+   "kind_free_text": "RFC decision procedures transcribed as TLA+ operators; TLC enumerates the bounded input space and judges every verdict of the real Go functions"},
   {"name": "davtree", "path": "spec/DavTree.tla spec/DavTreeMC.tla spec/DavSim.tla spec/DavJudge.tla harness/cmd/davrec lib/checks_dav.py",
    "serves_properties": ["C01", "C02", "C03", "C04", "C17"],
    "kind_free_text": "TLA+ resource-tree specification; TLC model check + case generation; Go recorder on the real webdav.Handler; TLC trace-validation judge"},
